@@ -28,40 +28,7 @@ MAX_ID_LITERALS = {"Document::new": r"^0$", "Document::new_from_prev": r"^\*?pre
 
 def _run(ctx):
     F = ctx.facts("default")
-    R = "R-WHO"
-    seen = 0
-    for p, b in sorted(F.bodies.items()):
-        fn = F.canon_of(b)
-        for bi, si, s in lib.stores_to_field(b, "max_id", "Document"):
-            seen += 1
-            t = b.rvname(s["rv"], 4) if si != "T" else "call:" + s.name
-            rx = MAX_ID_WRITERS.get(fn)
-            ctx.ob(R, "max_id-writer|%s" % fn, rx is not None and re.match(rx, t) is not None, "%s assigns max_id = %s" % (fn, t), b.where(),
-                   what="%s assigns Document.max_id = %s, which is not one of the reviewed monotone allocations: a later add_object/new_object_id can hand out an id that is already in use" % (fn, t))
-        for bi, s, fields in lib.struct_literals(b, "Document"):
-            if "max_id" in fields:
-                seen += 1
-                t = b.oname(fields["max_id"], 3)
-                rx = MAX_ID_LITERALS.get(fn)
-                ctx.ob(R, "max_id-literal|%s" % fn, rx is not None and re.match(rx, t) is not None, "%s initialises max_id = %s" % (fn, t), b.where(s["ln"]),
-                       what="%s builds a Document with max_id = %s" % (fn, t))
-    ctx.floor(R, "writers of Document.max_id", seen, 9)
-    # add_object: the inserted key is the new max_id
-    ao = F.fn("Document::add_object")
-    ins = [c for c in ao.calls if re.search(r"BTreeMap::<.*>::insert$", c.fn or "")]
-    st = lib.stores_to_field(ao, "max_id", "Document")
-    ok = len(ins) == 1 and len(st) == 1 and lib.before(ao, (st[0][0], st[0][1]), (ins[0].bb, "T"))
-    if ok:
-        idl = op_place(lib.trace_operand(ao, ins[0].args[1]))
-        d = ao.single_def(idl["l"]) if idl is not None and not idl["p"] else None
-        ok = d is not None and d[2] == "rv" and re.match(r"^tuple\(\*self\.max_id,0\)$", ao.rvname(d[3], 3)) is not None and lib.before(ao, (st[0][0], st[0][1]), (d[0], d[1]))
-    ctx.ob("R-ORDER", "add_object-key-is-new-max_id", ok, "max_id += 1; id = (max_id, 0); objects.insert(id, ..)", ao.where(),
-           what="add_object does not insert under the freshly incremented max_id (an existing object can be overwritten)")
-    no = F.fn("Document::new_object_id")
-    rets = [no.rvname(s["rv"], 3) for bi, si, s in no.stmts() if "lhs" in s and s["lhs"]["l"] == 0 and not s["lhs"]["p"]]
-    st = lib.stores_to_field(no, "max_id", "Document")
-    ctx.ob("R-ORDER", "new_object_id-returns-new-max_id", rets == ["tuple(*self.max_id,0)"] and len(st) == 1, "returns (max_id, 0) after max_id += 1", no.where(),
-           what="new_object_id does not return the freshly incremented max_id")
+    id_rules(ctx, F)
     outline_ids(ctx, F)
     # 2. delete_object
     do = F.fn("Document::delete_object")
@@ -197,3 +164,59 @@ def run(ctx):
     # renumbering is an editing operation too: the structural rules of C10 are part of "editing keeps the document sound"
     import prop_c10
     prop_c10.run(ctx)
+
+
+def id_rules(ctx, F):
+    """identifier allocation: who assigns Document.max_id and with which term; add_object / new_object_id hand out max_id + 1;
+    renumbering leaves max_id = the last assigned number on EVERY path to its end."""
+    R = "R-WHO"
+    seen = 0
+    for p, b in sorted(F.bodies.items()):
+        fn = F.canon_of(b)
+        for bi, si, s in lib.stores_to_field(b, "max_id", "Document"):
+            seen += 1
+            t = b.rvname(s["rv"], 4) if si != "T" else "call:" + s.name
+            rx = MAX_ID_WRITERS.get(fn)
+            ctx.ob(R, "max_id-writer|%s" % fn, rx is not None and re.match(rx, t) is not None, "%s assigns max_id = %s" % (fn, t), b.where(),
+                   what="%s assigns Document.max_id = %s, which is not one of the reviewed monotone allocations: a later add_object/new_object_id can hand out an id that is already in use" % (fn, t))
+        for bi, s, fields in lib.struct_literals(b, "Document"):
+            if "max_id" in fields:
+                seen += 1
+                t = b.oname(fields["max_id"], 3)
+                rx = MAX_ID_LITERALS.get(fn)
+                ctx.ob(R, "max_id-literal|%s" % fn, rx is not None and re.match(rx, t) is not None, "%s initialises max_id = %s" % (fn, t), b.where(s["ln"]),
+                       what="%s builds a Document with max_id = %s" % (fn, t))
+    ctx.floor(R, "writers of Document.max_id", seen, 9)
+    # add_object: the inserted key is the new max_id
+    ao = F.fn("Document::add_object")
+    ins = [c for c in ao.calls if re.search(r"BTreeMap::<.*>::insert$", c.fn or "")]
+    st = lib.stores_to_field(ao, "max_id", "Document")
+    ok = len(ins) == 1 and len(st) == 1 and lib.before(ao, (st[0][0], st[0][1]), (ins[0].bb, "T"))
+    if ok:
+        idl = op_place(lib.trace_operand(ao, ins[0].args[1]))
+        d = ao.single_def(idl["l"]) if idl is not None and not idl["p"] else None
+        ok = d is not None and d[2] == "rv" and re.match(r"^tuple\(\*self\.max_id,0\)$", ao.rvname(d[3], 3)) is not None and lib.before(ao, (st[0][0], st[0][1]), (d[0], d[1]))
+    ctx.ob("R-ORDER", "add_object-key-is-new-max_id", ok, "max_id += 1; id = (max_id, 0); objects.insert(id, ..)", ao.where(),
+           what="add_object does not insert under the freshly incremented max_id (an existing object can be overwritten)")
+    no = F.fn("Document::new_object_id")
+    rets = [no.rvname(s["rv"], 3) for bi, si, s in no.stmts() if "lhs" in s and s["lhs"]["l"] == 0 and not s["lhs"]["p"]]
+    st = lib.stores_to_field(no, "max_id", "Document")
+    ctx.ob("R-ORDER", "new_object_id-returns-new-max_id", rets == ["tuple(*self.max_id,0)"] and len(st) == 1, "returns (max_id, 0) after max_id += 1", no.where(),
+           what="new_object_id does not return the freshly incremented max_id")
+    rn = F.fn("Document::renumber_objects_with")
+    st = [bi for bi, si, s_ in lib.stores_to_field(rn, "max_id", "Document")]
+    rets = [bi for bi in range(rn.n) if rn.term(bi)["k"] == "return" and bi in rn.reachable()]
+    # every normal path from the entry to a return passes the assignment
+    okp = bool(st) and bool(rets)
+    if okp:
+        seen_, work = set(), [0]
+        while work:
+            x = work.pop()
+            if x in seen_ or x in st:
+                continue
+            seen_.add(x)
+            work.extend(rn.succ[x])
+        okp = not any(r in seen_ for r in rets)
+    ctx.ob("R-ORDER", "renumber-sets-max_id-on-every-path", okp, "every path through renumber_objects_with assigns max_id", rn.where(),
+           what="renumber_objects_with can return without assigning max_id (an early return): after renumbering a document whose max_id was stale (objects inserted directly, as the merge recipe does) "
+                "the next add_object / encrypt / save hands out an id that is in use")
